@@ -244,7 +244,7 @@ def identity_transfer(prog, chk):
     ok = False
     for (b, t) in acs:
         o = R.origin(ru, t["args"][1])
-        if o[0] == "field" and o[1][1][-1] == ".classes" and o[1][0] == reuse:
+        if o[0] == "field" and o[1][1][-1] == ".classes" and (o[1][0] == reuse or R.origin_local(ru, {"c": [o[1][0], []]}) == reuse):
             ok = True
     chk.ob(ok, "A13.identity", "reuse-classes", where, "the reuse element's classes are added to the instance", "instance does not inherit the reuse element's classes")
     # the scope pushed is the (evaluated) reuse element: its attributes are the bindings
